@@ -207,7 +207,17 @@ impl Walk<'_> {
                     self.histories += 1;
                     self.max_depth = self.max_depth.max(hist.len());
                     self.states.insert(s2.iter().copied().collect());
-                    self.validated += check_state(&c2, &s2, hist, self.qs, acc);
+                    match catch(|| {
+                        let mut sub = Acc::new();
+                        let n = check_state(&c2, &s2, hist, self.qs, &mut sub);
+                        (n, sub)
+                    }) {
+                        Ok((n, sub)) => {
+                            self.validated += n;
+                            acc.merge(sub);
+                        }
+                        Err(p) => acc.violate(viol("query_panic", hist, json!({}), format!("a query panicked after {:?}: {} at {}", hist, p.msg, p.loc))),
+                    }
                     // two calendars in one stream: parent then child
                     let mut stream = Vec::new();
                     let _ = cal.serialize(&mut stream);
